@@ -365,6 +365,14 @@ func (r *Registry) observe(w io.Writer, te TypeEntry, src string, seq int, val r
 			rec["err"] = "marshal: " + err.Error()
 			return
 		}
+		// the wire format belongs to the value: marshalling it directly (not addressable) must give the same bytes
+		if bv, errv := json.Marshal(val.Interface()); errv != nil || !bytes.Equal(bv, b) {
+			b = bv
+			if errv != nil {
+				rec["err"] = "marshal (by value): " + errv.Error()
+				return
+			}
+		}
 		d, err := Doc(b)
 		if err != nil {
 			rec["err"] = "invalid JSON: " + err.Error()
